@@ -8,6 +8,11 @@ import (
 )
 
 func TestCheck(t *testing.T) {
+	if os.Getenv("VERIF_RACE_PASS") != "" {
+		// the auxiliary -race pass of the thorough tier runs a reduced workload; it must not overwrite the evidence file of
+		// the deciding pass (the driver adds its race_pass summary to that file afterwards)
+		os.Setenv("VERIF_NO_EVIDENCE", "1")
+	}
 	vkit.Run(t, "C05", "exploration", func(r *vkit.R) {
 		r.Rule("(1) seeded sequential histories (6-45 ops) of acquire / release / reconfigure {resize, no-op, no-op with another field changed, ->tokenBucket, ->exempt, delete, re-add} on one schema, " +
 			"exact count of unfinished requests of the current max-in-flight epoch, quiescence probe (exactly M admitted again) at all-finished points; " +
